@@ -236,9 +236,21 @@ def register_helpers(mod) -> None:
             _HELPERS[st.name] = st
 
 
+def _tag_split_via_divmod(fn: ast.AST, want: str) -> Optional[str]:
+    """`number, wire_type = divmod(tag, 8)`"""
+    for n in ast.walk(fn):
+        if isinstance(n, ast.Assign) and len(n.targets) == 1 and isinstance(n.targets[0], ast.Tuple) and len(n.targets[0].elts) == 2 \
+                and isinstance(n.value, ast.Call) and ast.unparse(n.value.func) == "divmod" and len(n.value.args) == 2 \
+                and isinstance(n.value.args[1], ast.Constant) and n.value.args[1].value == 8:
+            t = n.targets[0].elts[1 if want == "wire" else 0]
+            if isinstance(t, ast.Name):
+                return t.id
+    return None
+
+
 def wire_type_local(fn: ast.AST) -> str:
     """the local that holds `tag & 0x7`"""
-    via = _tag_split_via_helper(fn, "wire")
+    via = _tag_split_via_helper(fn, "wire") or _tag_split_via_divmod(fn, "wire")
     if via:
         return via
     for n in ast.walk(fn):
@@ -251,7 +263,7 @@ def wire_type_local(fn: ast.AST) -> str:
 
 
 def field_number_local(fn: ast.AST) -> str:
-    via = _tag_split_via_helper(fn, "number")
+    via = _tag_split_via_helper(fn, "number") or _tag_split_via_divmod(fn, "number")
     if via:
         return via
     for n in ast.walk(fn):
@@ -545,20 +557,41 @@ def rule_W1(ctx) -> None:
             ctx.proved("W1", f"const[{k}]", M_INIT)
         else:
             ctx.refuted("W1", f"const[{k}]", f"{mod.consts[k]}!={wiretypes[r]}", M_INIT, f"{k} = {mod.consts[k]}, reference WIRETYPE_{r} = {wiretypes[r]}")
-    # tag split in the readers: >> TAG_TYPE_BITS and & (1 << bits) - 1
+    # tag split in the readers: what is yielded as number / wire_type is tag >> TAG_TYPE_BITS and tag & ((1 << bits) - 1),
+    # however the split is spelled (shift and mask, divmod by 2**bits, a helper): judged on the E2 terms of the yielded field
     for q in ("load_fields", "parse_fields"):
         fn = mod.func(q)
-        shifts = [n.value.right.value for n in ast.walk(fn) if isinstance(n, ast.Assign) and isinstance(n.value, ast.BinOp)
-                  and isinstance(n.value.op, ast.RShift) and isinstance(n.value.right, ast.Constant)]
-        masks = [s.value for n in ast.walk(fn) if isinstance(n, ast.Assign) and isinstance(n.value, ast.BinOp) and isinstance(n.value.op, ast.BitAnd)
-                 for s in (n.value.left, n.value.right) if isinstance(s, ast.Constant)]
-        if shifts == [tag_bits] and masks == [(1 << tag_bits) - 1]:
+        paths = Interp(mod).run(fn)
+        ctx.count(len(paths))
+        seen = set()
+        for p in paths:
+            for e in p.events:
+                if e.kind == "yield" and e.data[0] == "call":
+                    kw = dict(e.data[3])
+                    num, wt = kw.get("number"), kw.get("wire_type")
+                    if num is None and len(e.data[2]) >= 2:
+                        num, wt = e.data[2][0], e.data[2][1]
+                    if num is not None and wt is not None:
+                        seen.add((num, wt))
+        ok = bool(seen)
+        detail = ""
+        for num, wt in seen:
+            good = num[0] == "op" and num[1] == ">>" and num[3] == C(tag_bits) and wt[0] == "op" and wt[1] == "&" and C((1 << tag_bits) - 1) in wt[2:] and num[2] in wt[2:]
+            # under a decided wire type the wire term may have been folded to that constant
+            if not good and num[0] == "op" and num[1] == ">>" and num[3] == C(tag_bits) and wt[0] == "c":
+                good = True
+            if not good:
+                ok = False
+                detail = f"number={show(num)} wire_type={show(wt)}"
+        if not seen:
+            ctx.inconclusive("W1", f"tag-split[{q}]", "yielded field not recognised", mod.loc(fn))
+        elif ok:
             ctx.proved("W1", f"tag-split[{q}]", mod.loc(fn))
         else:
-            ctx.refuted("W1", f"tag-split[{q}]", f"shift={shifts} mask={masks}", mod.loc(fn), f"tag split uses shift {shifts} / mask {masks}; reference: {tag_bits} / {(1 << tag_bits) - 1}")
+            ctx.refuted("W1", f"tag-split[{q}]", detail, mod.loc(fn), f"the reader yields {detail}; reference: number = tag >> {tag_bits}, wire type = tag & {(1 << tag_bits) - 1}")
     fmts, origin2 = ref.struct_formats()
     ctx.oracle(origin2)
-    tbl = mod.table_function("_pack_fmt")
+    tbl = pack_fmt_table(mod)
     for t, f in fmts.items():
         if tbl.get(t) == f:
             ctx.proved("W1", f"struct-format[{t}]", mod.loc(mod.func("_pack_fmt")))
@@ -567,10 +600,23 @@ def rule_W1(ctx) -> None:
                         f"bytes(M(x=1)) for a {t} field")
 
 
+def pack_fmt_table(mod) -> Dict[Any, Any]:
+    """proto type -> struct format, whether _pack_fmt holds the table itself or indexes a module-level constant"""
+    fn = mod.func("_pack_fmt")
+    rets = [n for n in ast.walk(fn) if isinstance(n, ast.Return) and n.value is not None]
+    if len(rets) == 1 and isinstance(rets[0].value, ast.Subscript) and isinstance(rets[0].value.value, ast.Name) and rets[0].value.value.id in mod.consts \
+            and isinstance(mod.consts[rets[0].value.value.id], dict):
+        return dict(mod.consts[rets[0].value.value.id])
+    if len(rets) == 1 and isinstance(rets[0].value, ast.Call) and isinstance(rets[0].value.func, ast.Attribute) and rets[0].value.func.attr == "get" \
+            and isinstance(rets[0].value.func.value, ast.Name) and isinstance(mod.consts.get(rets[0].value.func.value.id), dict):
+        return dict(mod.consts[rets[0].value.func.value.id])
+    return mod.table_function("_pack_fmt")
+
+
 def rule_N4(ctx) -> None:
     m = model(ctx)
     mod = m.mod
-    tbl = mod.table_function("_pack_fmt")
+    tbl = pack_fmt_table(mod)
     fixed = set(mod.consts.get("FIXED_TYPES", ()))
     loc = mod.loc(mod.func("_pack_fmt"))
     if set(tbl) == fixed:
@@ -1036,7 +1082,9 @@ def rule_W4(ctx) -> None:
             continue
         last = list(p.valuation)[-1]
         txt = show(last) if last and last[0] != "raises" else ""
-        if "from_bytes" in txt or "& 127" in txt or "& 128" in txt or "result" in txt:
+        # the continuation bit (& 128) only says how long the varint is - a rejection that follows it is the length bound in
+        # another form; what must not decide a rejection is the payload (& 127), the accumulated result, or the byte compared as a whole
+        if "& 127" in txt or "result" in txt or ("from_bytes" in txt and "& 128" not in txt):
             value_dependent.append(txt)
     if extra:
         ctx.refuted("W4", "load_varint:rejections", f"{sorted(extra)}", mod.loc(lv), f"load_varint raises {sorted(extra)} besides the length bound and EOF")
